@@ -50,10 +50,17 @@ RtBNoPanic(r) == (Has(r, "out") => (r.out = "ok" \/ (Len(r.out) > 4 /\ SubSeq(r.
 
 TraceA == IsEvent("RtA") /\ RtAOk(Rec[l]) = TRUE
 TraceB == IsEvent("RtB") /\ (RtBOk(Rec[l]) /\ RtBNoPanic(Rec[l])) = TRUE
+(* the library built WITHOUT the standard library (no default features, all message features): frames written by the full  *)
+(* build's generator decode to typed messages whose re-encoding, by that build's own encoder, reproduces them               *)
+NoStdOk(r) == /\ r.build = "ok"
+              /\ r.class = "Typed" /\ r.n = r.number
+              /\ r.rt = "same"
+TraceN == IsEvent("NoStdRt") /\ NoStdOk(Rec[l]) = TRUE
 Init == l = 1
-Next == TraceA \/ TraceB
+Next == TraceA \/ TraceB \/ TraceN
 
-Explain(r) == IF r.ev = "RtA"
+Explain(r) == IF r.ev = "NoStdRt" THEN [rule |-> "no_std build: generator frame decodes typed and re-encodes to the same bytes", got |-> <<r.class, r.rt>>]
+              ELSE IF r.ev = "RtA"
               THEN [clean |-> Clean(r), out1 |-> r.out1,
                     rule |-> "out1=ok => d1 typed of the same variant, out2=ok, d2=d1, and (Clean => f2=f1)"]
               ELSE [rule |-> "typed d re-encoded ok => decode(f) = d (1059/1065: up to stable regrouping by satellite)"]
